@@ -40,7 +40,7 @@ const nSlots = 3
 // source renders version k of the package.
 func (h *History) source(k int) string {
 	var sb strings.Builder
-	sb.WriteString("package app\n\nimport \"fmt\"\n\n")
+	sb.WriteString("package app\n\nimport \"fmt\"\nimport \"host\"\nimport \"lib\"\n\n")
 	sb.WriteString("type Obj struct {\n\tN int\n\tF func(int) int\n}\n\ntype Pt struct {\n\tX, Y int\n\tName string\n}\n\n")
 	sb.WriteString("var counter int\nvar initd int = 10\nvar label = \"fresh\"\nvar inst *Obj\nvar pt *Pt\n")
 	for s := 0; s < nSlots; s++ {
@@ -90,8 +90,27 @@ func (h *History) source(k int) string {
 	sb.WriteString("func Bump() {\n\tcounter += 5\n\tinitd += 7\n\tlabel = label + \"+\"\n}\n\nfunc Show() {\n\tfmt.Println(\"state\", counter, initd, label)\n}\n\n")
 	sb.WriteString("func Fill(a int) {\n\tshape = &Pt{X: a, Y: 2}\n\tanyv = a\n\tnums = append(nums, a)\n\tif tab == nil {\n\t\ttab = map[string]int{}\n\t}\n\ttab[\"k\"] = a\n\tratio = float64(a) / 2\n\tflag = true\n\tname = name + \"n\"\n\tsmall += 100\n\tbt += 200\n\tu32 += 4000000000\n}\n\n")
 	sb.WriteString("func ShowAll() {\n\tif shape != nil {\n\t\tfmt.Println(\"shape\", shape.Area())\n\t}\n\tif anyv != nil {\n\t\tfmt.Println(\"any\", anyv)\n\t}\n\tfmt.Println(\"all\", shape == nil, anyv == nil, nums, len(nums), len(tab), tab[\"k\"], ratio, flag, name, small, bt, u32)\n}\n\n")
+	// an imported script package is reloaded with the package that imports it
+	sb.WriteString("func LibShow() {\n\tfmt.Println(\"lib\", lib.Ver(), lib.Level, lib.Count)\n}\n\nfunc LibRaise() {\n\tlib.Raise()\n}\n\n")
+	// a reload requested by the running script itself (the host function loads the next version while Live is active):
+	// the rest of Live runs on, reading and writing the package's variables as they are after the reload
+	sb.WriteString("func Live(next int) {\n\tbefore := counter\n\thost.reload(next)\n\tcounter += 100\n\tfmt.Println(\"live\", before, counter, initd, label, Tag())\n}\n\n")
+	// every version mentions a few hundred constants no earlier version had: the VM's table of names grows
+	fmt.Fprintf(&sb, "func Pad() int {\n\tt := 0\n\tfor _, v := range []string{")
+	for i := 0; i < 150; i++ {
+		fmt.Fprintf(&sb, "\"pad-%d-%d\", ", k, i)
+	}
+	sb.WriteString("} {\n\t\tt += len(v)\n\t}\n\treturn t\n}\n\n")
 	sb.WriteString("func MakePt() {\n\tpt = &Pt{X: 1, Y: 2, Name: \"p\"}\n}\n\nfunc ShowPt() {\n\tfmt.Println(pt, pt.X+pt.Y)\n}\n")
 	return sb.String()
+}
+
+// files is version k of the whole tree: the package and the script package it imports.
+func (h *History) files(k int) map[string]string {
+	return map[string]string{
+		"app/app.go": h.source(k),
+		"lib/lib.go": fmt.Sprintf("package lib\n\nvar Level = 10\nvar Count int\n\nfunc Ver() int {\n\treturn %d\n}\n\nfunc Raise() {\n\tLevel++\n\tCount++\n}\n", k),
+	}
 }
 
 func genHistory(rt *rapid.T) *History {
@@ -112,7 +131,17 @@ func genHistory(rt *rapid.T) *History {
 			h.Ops = append(h.Ops, Op{Op: "fill", Arg: arg})
 			continue
 		case 14:
-			h.Ops = append(h.Ops, Op{Op: "showall"})
+			switch rx.Uniform(rt, 4, "extra") {
+			case 0:
+				h.Ops = append(h.Ops, Op{Op: "libraise"})
+			case 1:
+				h.Ops = append(h.Ops, Op{Op: "libshow"})
+			case 2:
+				k++
+				h.Ops = append(h.Ops, Op{Op: "live", K: k})
+			default:
+				h.Ops = append(h.Ops, Op{Op: "showall"})
+			}
 			continue
 		}
 		switch rx.Weighted(rt, "op2", 6, 5, 5, 5, 4, 4, 4, 3, 3, 3, 2, 2, 2) {
@@ -210,11 +239,17 @@ type model struct {
 	fills []int // arguments of the Fill calls so far
 	filledAt int // version loaded at the last Fill
 	stepvCalledAt int // version loaded when the host last called stepv by name
+	libLevel, libCount int // the imported package's variables: Level has an initialiser, Count has none
 }
 
 func check(h *History) (f *ev.Failure) {
 	vm := goat.New()
-	m := &model{fieldFn: map[*inst]int{}}
+	m := &model{fieldFn: map[*inst]int{}, libLevel: 10}
+	var reloadErr error
+	vm.Set("host.reload", goatlang.NewFunc(1, 0, func(_ *goatlang.VM, args []goatlang.Value) {
+		// the reload is done on the VM the script is running on, as the CLI's live mode does from its yield hook
+		reloadErr = vm.VM.Load(goat.FS(h.files(args[0].Int())), "app")
+	}))
 	nontrivial := false
 	captureVersion := map[string]int{}
 	fail := func(i int, msg string) *ev.Failure {
@@ -238,10 +273,30 @@ func check(h *History) (f *ev.Failure) {
 		}
 		switch op.Op {
 		case "load":
-			r = vm.Load(goat.FS(map[string]string{"app/app.go": h.source(op.K)}), "app", goat.DefaultBudget)
+			r = vm.Load(goat.FS(h.files(op.K)), "app", goat.DefaultBudget)
 			m.k = op.K
 			m.initd = 10 // variables with an initialiser are re-initialised, the others keep their values
 			m.label = "fresh"
+			m.libLevel = 10
+		case "live":
+			before := m.counter
+			call("Live", op.K)
+			if reloadErr != nil {
+				return fail(i, "the reload requested by the running script failed: "+reloadErr.Error())
+			}
+			m.k = op.K
+			m.initd, m.label, m.libLevel = 10, "fresh", 10
+			m.counter += 100
+			want = fmt.Sprintf("live %d %d %d %s %d\n", before, m.counter, m.initd, m.label, m.k)
+			nontrivial = true
+			ev.R().Class("reload_requested_by_the_running_script")
+		case "libraise":
+			call("LibRaise")
+			m.libLevel++
+			m.libCount++
+		case "libshow":
+			call("LibShow")
+			want = fmt.Sprintf("lib %d %d %d\n", m.k, m.libLevel, m.libCount)
 		case "capturefn":
 			call(fmt.Sprintf("CaptureFn%d_%d", op.Fn, op.Slot))
 			m.savedFn[op.Slot] = op.Fn
